@@ -58,3 +58,65 @@ def signature_obligations(relpaths, targets):
 
 def sha_files(relpaths):
     return {rel: hashlib.sha256(open(os.path.join(REPO, rel), 'rb').read()).hexdigest() for rel in relpaths}
+
+
+# ----------------------------------------------------------------------------
+# token layer: symbolic numbers through text
+
+class Tokens(object):
+    """Within the block, str() of a symbolic number is a unique ASCII token, so that text produced by the real writers with float_format='%s' carries the
+    symbolic values; `value(text)` maps a token (str or bytes) back to the symbolic number and any other text to float.  This replaces printf / strtod by the
+    identity on numbers: what is proved is which number is written where (and read back from where); rounding by the number format is outside (bounded checks)."""
+    def __init__(self):
+        self.map = {}
+
+    def __enter__(self):
+        from pyvc.sym import Sym
+        self._Sym = Sym
+        self._old = Sym.__dict__.get('__str__')
+        toks = self
+
+        def _str(s):
+            if s.is_concrete():
+                return repr(float(s)) if s.t.sort != 'Int' else repr(int(s))
+            name = 'T%dT' % s.t.uid
+            toks.map[name] = s
+            return name
+        Sym.__str__ = _str
+        return self
+
+    def __exit__(self, *a):
+        if self._old is None:
+            del self._Sym.__str__
+        else:
+            self._Sym.__str__ = self._old
+        return False
+
+    def value(self, text):
+        if isinstance(text, bytes):
+            text = text.decode('utf-8')
+        text = text.strip()
+        if text in self.map:
+            return self.map[text]
+        return float(text)
+
+    def np_proxy(self, snp):
+        toks = self
+
+        class _NP(object):
+            def __getattr__(self, k):
+                return getattr(snp, k)
+
+            def array(self, obj, dtype=None, **kw):
+                if isinstance(obj, (list, tuple)) and obj and all(isinstance(x, (str, bytes)) for x in obj):
+                    k = str(dtype)
+                    if 'int' in k:
+                        return snp.array([int(x) for x in obj], dtype=dtype)
+                    vals = [toks.value(x) for x in obj]
+                    import numpy as _np
+                    out = _np.empty(len(vals), dtype=object)
+                    for i, v in enumerate(vals):
+                        out[i] = v
+                    return snp.asarray(out)
+                return snp.array(obj, dtype=dtype, **kw)
+        return _NP()
